@@ -2,6 +2,7 @@ import RbV.Basic.Codec
 import RbV.Spec.RankSelect
 import RbV.Model.RankSelect
 import RbV.Model.Wavelet
+import RbV.Gen.Dna2Int
 /-! Driver for property C17 (rank/select and wavelet matrix equal naive counting).
 
 ```
@@ -9,6 +10,9 @@ c17 rs k:<k> n:<n> f:<0|1> <hex> r:<all|list> s:<all|list> => r1:<…> r0:<…> 
 c17 wm <hex text> => <ranks of A>;<C>;<G>;<T>;<N>;<$>
 c17 tab dna2int => <128 entries>
 ```
+The `DNA2INT` table is not copied: `Gen.Dna2Int.table` is extracted from the source text on every run (DESIGN §8);
+the printed table must equal it (tag `gen=src`) and pass the proved checker `tableOk`; `drift` = it differs from the
+pinned copy `dna2intLit` (still injective: not a violation).
 Expected values come from `rankRef` / `selectRef` / `occ` (evaluated through the one-pass tables
 `prefixCounts` / `positions`, proved equal to them).  The mirror models (`RbV.Model.RankSelect`,
 `RbV.Model.Wavelet`) are evaluated on every query as well; they are proved equal to the references
@@ -106,8 +110,9 @@ def verdictWm (hx out : String) : String :=
     match parseListNE parseNatList out ';' with
     | some rows =>
       let exp := dnaSyms.map (fun c => (prefixCounts true (text.map (· == c)) 0))
-      -- mirror model of the three-level wavelet matrix over the literal code table
-      let code := fun v => dna2intLit.getD v 0
+      -- mirror model of the three-level wavelet matrix over the code table extracted from the source on this run
+      -- (`RbV/Gen/Dna2Int.lean`, tools/gen_tables.py); `dna2int_generated_ok` (Thm/C17) is re-proved over it
+      let code := fun v => Gen.Dna2Int.table.getD v 0
       let levels := Model.Wavelet.build code text
       let pcs := (levels.map (fun lv => ((prefixCounts false lv.bits 0).toArray, (prefixCounts true lv.bits 0).toArray))).toArray
       let rk := fun (level : Nat) (b : Bool) (i : Nat) =>
@@ -115,7 +120,9 @@ def verdictWm (hx out : String) : String :=
         | some (p0, p1) => if b then p1[i]? else p0[i]?
         | none => none
       let mod := dnaSyms.map (fun c => (List.range text.length).map (fun p => Model.Wavelet.rank code rk levels c p))
-      if mod ≠ exp then "bad-op model-and-spec-disagree" else
+      -- `wavelet_rank_correct_generated`: model = spec whenever the extracted table passes `tableOk`; a table that fails
+      -- it is the code's defect (reported below through the ranks and by the `tab` case), not one of this machinery
+      if tableOk Gen.Dna2Int.table && mod ≠ exp then "bad-op model-and-spec-disagree" else
       if rows = exp then
         let distinct := (dnaSyms.filter (fun c => text.contains c)).length
         "ok" ++ (if text.length ≥ 2 ∧ distinct ≥ 2 then " nt" else "") ++ s!" wm syms{distinct}"
@@ -129,7 +136,12 @@ def verdictWm (hx out : String) : String :=
 def verdictTab (out : String) : String :=
   match parseNatList out with
   | some t =>
-    if tableOk t then "ok tab" ++ (if t = dna2intLit then "" else " drift") else "reject dna2int-not-injective-on-ACGTN$"
+    if !tableOk t then "reject dna2int-not-injective-on-ACGTN$" else
+    -- cross-check of the two extraction paths: the table the harness read out of the source it was compiled from
+    -- (`include_str!`) against the table tools/gen_tables.py wrote into `Gen/Dna2Int.lean` from the same tree before
+    -- this driver was built.  A difference is a defect of the machinery (stale generated file, extractor bug).
+    if t ≠ Gen.Dna2Int.table then "bad-op generated-table-differs-from-compiled-source" else
+    "ok tab gen=src" ++ (if t = dna2intLit then "" else " drift")
   | none => if out.startsWith "BADCASE" then "reject dna2int-table-not-found" else "bad-op output"
 
 def verdict (toks : List String) (out : String) : String :=
